@@ -1,6 +1,6 @@
 \* C17 thorough: the 72 cells of the matrix + every interleaving of <= 3 connections, <= 3 reloads, <= 3 uses,
 \* with and without mutual TLS (duplex scripts) + the real-server scripts: <= 3 connections (each presenting the
-\* trusted client certificate, none, or one of another CA) x <= 2 reloads x <= 1 use, with and without mutual TLS
+\* trusted client certificate, none, or one of another CA) x <= 2 reloads x <= 2 uses, with and without mutual TLS
 SPECIFICATION Spec
 CONSTANTS
   Mode = "swap"
@@ -10,7 +10,7 @@ CONSTANTS
   Mtls = {FALSE, TRUE}
   RMaxConn = 3
   RMaxReload = 2
-  RMaxUse = 1
+  RMaxUse = 2
   RealMtls = {FALSE, TRUE}
 INVARIANTS TypeOK Undisturbed Fresh ConfigKept Authenticated Emit
 CHECK_DEADLOCK FALSE
